@@ -640,3 +640,29 @@ Proof.
   - exfalso. unfold gather in Eg. rewrite gather_decomp in Eg. destruct (existsb _ _); discriminate.
   - exfalso. unfold gather in Eg. rewrite gather_decomp in Eg. destruct (existsb _ _); discriminate.
 Qed.
+
+(* ====================================================================== *)
+(* 8. the statements of Props/Properties_C02.v                             *)
+(* ====================================================================== *)
+
+Lemma find_sound_nth l name l' k :
+  Forall hr_ok l -> (Z.of_nat (length (expand l)) <= 2147483647)%Z -> find l name = (l', k) ->
+  expand l' = expand l /\ ((0 <= k)%Z -> nth_error (expand l) (Z.to_nat k) = Some name).
+Proof.
+  intros Hok Hb H. destruct (find_sound _ _ _ _ Hok Hb H) as [Hl Hr]. split; [apply leq_expand; auto|].
+  intros Hk. destruct Hr as [->|(j & -> & Hj)]; [lia|]. rewrite Nat2Z.id. exact Hj.
+Qed.
+
+Lemma survivors_spec matches targets excl keep drop :
+  let r := final matches targets excl keep drop in
+  subseq r targets /\
+  (forall h, survives matches excl keep drop h = true -> occ h r = occ h targets) /\
+  (forall h, survives matches excl keep drop h = false -> ~ In h r).
+Proof.
+  cbv zeta. unfold final. split; [apply filter_subseq|]. split.
+  - intros h H. apply occ_filter_keep; auto.
+  - intros h H. apply filter_drop_all; auto.
+Qed.
+
+Lemma excluded_never_survives matches excl keep drop h : In h excl -> survives matches excl keep drop h = false.
+Proof. intros H. unfold survives. apply memb_In in H. rewrite H. reflexivity. Qed.
